@@ -3,6 +3,8 @@
 import os, sys, json, shutil, subprocess
 src = os.path.abspath(sys.argv[1]); name = sys.argv[2]; note = sys.argv[3] if len(sys.argv) > 3 else ''
 extra = sys.argv[4] if len(sys.argv) > 4 else None
+if extra is None and os.path.exists(os.path.join(src, 'meta.json')):
+    extra = json.load(open(os.path.join(src, 'meta.json'))).get('also_run')      # checks of other properties that are expected to catch the change
 dst = os.path.join('/verif/seeded', name)
 os.makedirs(dst, exist_ok=True)
 meta = json.load(open(os.path.join(src, 'meta.json')))
@@ -20,7 +22,8 @@ meta.update({
                   'pinned_tests_and_fixtures_pass_with_change': r.get('tests_ok'), 'regress_output': r.get('tests')},
     'what_was_run': ' '.join(cmd) + '  (scratch worktree of /repo HEAD, change applied with git apply, checks run with VERIF_REPO=<worktree>)',
     'checks': {k: {'exit': v['exit'], 'violation_lines': v['violations'], 'first': v['first'][:240]} for k, v in r.get('checks', {}).items()},
-    'detected': any(v['exit'] == 1 for k, v in r.get('checks', {}).items() if k.startswith(prop)),
+    'detected': any(v['exit'] == 1 for k, v in r.get('checks', {}).items() if k.startswith(prop) or (extra and k.split('@')[0] in extra.split(','))),
+    'also_run': extra,
     'note': note,
 })
 for f in ('patch.diff', 'demo.py'):
